@@ -225,3 +225,23 @@ func TrackFds(fds []int, err error) ([]int, error) {
 
 // SwitchHook, when set, runs whenever another thread is about to run (per-"process" global state is swapped here).
 var SwitchHook func(proc int)
+
+// WriteClamp enables short-write answers for the event connection's write syscall: at every write of more than one
+// byte the explorer may let the kernel take only half of it (one deviation). EAGAIN is never faked: the real
+// edge-triggered epoll would not report the socket writable again and the writer would hang for a reason that is
+// not the code's.
+var WriteClamp bool
+
+// SyscallWrite replaces syscall.Syscall(SYS_WRITE, fd, ptr, n) in connEventHandler.write.
+func SyscallWrite(trap, a1, a2, a3 uintptr) (r1, r2 uintptr, err unix.Errno) {
+	x := X
+	if x != nil && !x.aborting {
+		x.point("write", nil)
+		if WriteClamp && a3 > 1 {
+			if Choose(2, 1) == 1 {
+				a3 = a3 / 2
+			}
+		}
+	}
+	return unix.Syscall(trap, a1, a2, a3)
+}
